@@ -167,6 +167,20 @@ impl Names {
     }
 }
 
+/// operation-or-status of a header: every class the code under test may distinguish (requests, each successful
+/// code, informational / redirection ranges, client and server errors, vendor ranges, extremes) next to random values
+pub const HDR_CODES: [u16; 24] = [
+    0x0000, 0x0001, 0x0002, 0x0003, 0x00ff, 0x0100, 0x0200, 0x0300, 0x03ff, 0x0400, 0x0401, 0x040a, 0x0412, 0x04ff, 0x0500, 0x0507, 0x05ff,
+    0x0600, 0x000b, 0x0006, 0x4002, 0x7fff, 0x8000, 0xffff,
+];
+pub fn hdr_code(r: &mut Rng) -> u16 {
+    if r.chance(1, 5) {
+        r.next() as u16
+    } else {
+        *r.pick(&HDR_CODES)
+    }
+}
+
 pub fn gen_datetime(r: &mut Rng) -> [u32; 10] {
     let mut f = [0u32; 10];
     f[0] = match r.below(4) {
@@ -424,12 +438,7 @@ pub fn conc_msg(want: &J, r: &mut Rng, delim_map: &HashMap<u64, u8>) -> AMsg {
         groups.push(AGroup { tag, attrs });
     }
     let ver = *r.pick(&[0x0101u16, 0x0200, 0x0100, 0xffff, 0x0000, 0x0202]);
-    let code = match r.below(4) {
-        0 => 0,
-        1 => 0xffff,
-        2 => 0x000b,
-        _ => r.next() as u16,
-    };
+    let code = hdr_code(r);
     let id = match r.below(5) {
         0 => 0,
         1 => 1,
